@@ -154,3 +154,62 @@ def class_crossing_cases(rnd, caps):
                     calls = [(mode_payload(rnd, m, 1, 0), 0) for _ in range(max(0, k + dk))]
                     out.append(dict(version=None, level=l, mask=0, fit=True, calls=calls, tag="tiny-segments"))
     return out
+
+
+# ---- exact bit arithmetic of the ISO stream (independent of the library), for boundary-directed multi-segment streams
+def _cci(mode, v):
+    k = 0 if v <= 9 else (1 if v <= 26 else 2)
+    return {MODE_NUM: (10, 12, 14), MODE_ALN: (9, 11, 13), MODE_BYTE: (8, 16, 16)}[mode][k]
+
+
+def seg_bits(mode, n, v):
+    if mode == MODE_NUM:
+        body = 10 * (n // 3) + (0, 4, 7)[n % 3]
+    elif mode == MODE_ALN:
+        body = 11 * (n // 2) + 6 * (n % 2)
+    else:
+        body = 8 * n
+    return 4 + _cci(mode, v) + body
+
+
+def data_bits(caps, v, l):
+    """data capacity in bits of (v, l), derived from the Spec's byte capacity"""
+    return 8 * (caps[(MODE_BYTE, v, l)] + (2 if v <= 9 else 3))
+
+
+def multi_segment_boundary_items(rnd, caps, pairs, prefixes=(1, 2, 3, 5, 7, 11), window=(-2, -1, 0, 1, 2, 3)):
+    """(v, l, segs, delta): an alphanumeric (or byte) prefix followed by a numeric tail tuned so that the whole stream is
+    capacity+delta bits at version v - exact capacity / one bit over are hit whenever the arithmetic allows it"""
+    out = []
+    for (v, l) in pairs:
+        D = data_bits(caps, v, l)
+        for a in prefixes:
+            for pm in (MODE_ALN, MODE_BYTE):
+                pre = seg_bits(pm, a, v)
+                n0 = max(0, (D - pre - 4 - _cci(MODE_NUM, v)) * 3 // 10)
+                for n in range(max(1, n0 - 4), n0 + 5):
+                    d = pre + seg_bits(MODE_NUM, n, v) - D
+                    if d in window:
+                        prefix = mode_payload(rnd, pm, a, 1)
+                        out.append((v, l, [(pm, prefix), (MODE_NUM, rbytes(rnd, DIG, n))], d))
+    return out
+
+
+AWKWARD_TAILS = [b"\n", b"\r\n", b"\r", b" ", b"\t", b"\0", b"\x0b", b"\x0c", b"\x1c", b"\x1f", b"\x85", b"\xa0", b"_", b"+", b"-", b".", b",",
+                 b"\xd9\xa3", b"\xef\xbc\x91", b"e5", b"0x", b"\n\n"]
+
+
+def awkward_short_cases(rnd, per_tail=2):
+    """short all-digit / all-alphanumeric payloads with one odd character glued to either end (trailing newline of `echo`,
+    signs, underscores, whitespace, non-ASCII digits): where 'looks numeric' tests written with regexes, int() or
+    str.isdigit() differ from 'every byte is an ASCII digit'"""
+    out = []
+    for t in AWKWARD_TAILS:
+        for k in range(per_tail):
+            for kind in ("digits", "alnum"):
+                core = payload(rnd, kind, rnd.choice([1, 2, 3, 5, 8, 13, 19, 20 - len(t), 21, 40]))
+                data = rnd.choice([core + t, t + core, core + t, core[:len(core) // 2] + t + core[len(core) // 2:]])
+                for opt in (20, 0):
+                    out.append(dict(version=None, level=rnd.randrange(4), mask=rnd.choice([None, 0, 3, 7]), fit=True,
+                                    calls=[(data, opt)], tag="awkward-short"))
+    return out
